@@ -18,7 +18,17 @@ impl AtomicUsize {
         unimplemented!()
     }
 }
-pub struct ShardedWriteBuffer { pub count: AtomicUsize }
+pub struct ShardedWriteBuffer { pub count: AtomicUsize, pub size: AtomicUsize }
+impl ShardedWriteBuffer {
+    // the shard has reached its entry or byte limit (unit shard_buffer verifies is_full itself)
+    pub uninterp spec fn full(&self) -> bool;
+    #[verifier::external_body]
+    pub fn is_full(&self) -> (r: bool)
+        ensures r == self.full(),
+    {
+        unimplemented!()
+    }
+}
 
 #[verifier::external_body]
 pub struct DiskLock { _p: () }
@@ -218,11 +228,10 @@ pub fn flush_interval() -> DurationH { unimplemented!() }
 #[verifier::external_body]
 pub fn thread_sleep(d: &DurationH) { unimplemented!() }
 
-// (start..bufs.len()).step_by(step).any(|s| bufs[s].count.load(Relaxed) > 0)   (rule R-strideany; step_by panics on 0)
-#[verifier::external_body]
-pub fn stride_any_nonempty(bufs: &Arc<Vec<ShardedWriteBuffer>>, start: usize, step: usize) -> (r: bool)
+// (a..b).step_by(s): next index of the stride (step_by panics on 0)
+pub fn step_next(i: usize, step: usize) -> (r: usize)
     requires step > 0,
-    ensures r == stride_nonempty(bufs@, start as int, step as int),
+    ensures r as int == (if i as int + step as int <= usize::MAX as int { i as int + step as int } else { usize::MAX as int }), r > i || i == usize::MAX,
 {
-    unimplemented!()
+    i.saturating_add(step)
 }
